@@ -61,7 +61,9 @@ CONTENTS = ("grad", "screen", "box", "noise")
 HDR_ENC_CONTENTS = ("rotzoom",)
 HDR_ENC_TOOLS = ("global_motion", "warped_motion", "obmc", "inter_intra")  # switches hdr_enc's field table knows
 TILE_SIZES = ((64, 64), (128, 128), (256, 256), (512, 128), (1024, 64))
-TILE_SIZES_T = ((4096, 64), (64, 2160))
+# 64x2160: the SVT decoder crashes on every picture taller than wide (valid streams; owned by the decoder properties), so these
+# sessions are counted as not evaluable until that is repaired; 1024x1024 supplies many tile rows in the meantime
+TILE_SIZES_T = ((4096, 64), (64, 2160), (1024, 1024))
 
 
 def analyse(a, pre, out, blocks):
@@ -223,7 +225,8 @@ ASSUMPTIONS = [
     "[minLog2TileCols, maxLog2TileCols] / [minLog2TileRows, maxLog2TileRows]; superblock size as signalled in the sequence header "
     "(the super_block_size configuration field is overridden by the library: preset <= 4 without TPL gives 128, else 64)",
     "intrabc_mode can only be set explicitly with screen_content_mode=1 (set_parameter rejects it otherwise): its off/on runs exist for scm=1 only",
-    "sessions that are rejected (tile_rows + tile_columns > 7), crash or do not complete are not evaluable and are counted in status_counts",
+    "sessions that are rejected (tile_rows + tile_columns > 7), crash or do not complete are not evaluable and are counted in status_counts; "
+    "streams on which the SVT decoder itself crashes (every picture taller than wide, e.g. 64x2160) cannot be inspected and are counted as svtdec-failed",
 ]
 
 
